@@ -128,6 +128,39 @@ func init() {
 			}
 		},
 	}
+	// the AES based algorithms alone (no SNOW 3G mutex in the way): many short calls under different keys
+	families["nas_cipher_aes"] = func() job {
+		return func(g, i int) string {
+			var k [16]byte
+			for j := range k {
+				k[j] = byte(g*19 + j*3)
+			}
+			if g%2 == 0 {
+				k[15] = byte(i)
+			}
+			msg := bytes.Repeat([]byte{byte(g), byte(i)}, 9+g%5)
+			if err := security.NASEncrypt(2, k, uint32(i), 1, uint8(g%2), msg); err != nil {
+				return "err"
+			}
+			return hex.EncodeToString(msg)
+		}
+	}
+	families["nas_mac_aes"] = func() job {
+		return func(g, i int) string {
+			var k [16]byte
+			for j := range k {
+				k[j] = byte(g*23 + j*5)
+			}
+			if g%2 == 0 {
+				k[15] = byte(i)
+			}
+			mac, err := security.NASMacCalculate(2, k, uint32(i), 1, 0, bytes.Repeat([]byte{byte(g + 1), byte(i)}, 7+g%5))
+			if err != nil {
+				return "err"
+			}
+			return hex.EncodeToString(mac)
+		}
+	}
 	// the in-repo Milenage library (free5gclib/milenage): AUTN generation, check and resynchronisation per UE
 	families["milenage"] = func() job {
 		return func(g, i int) string {
